@@ -482,15 +482,12 @@ def parseForm (f : String) (ps : List Name) : Option Form :=
   | "mjac", _ :: _ => some (.multiJac ps)
   | _, _ => none
 
+/-- final value and kind of every initial name (object identity is representation, not compared) -/
 def showFinal (s0 s : St) : String :=
   ",".intercalate (s0.store.map fun p =>
     match lookup s.store p.1 with
     | none => s!"{p.1}:?"
-    | some b =>
-      let r := match b with
-        | .ref r => if r < s0.heap.length then toString r else "new"
-        | .sym _ => "new"
-      s!"{p.1}:{r}:{showView (viewB s b)}")
+    | some b => s!"{p.1}:{showView (viewB s b)}")
 
 def showNew (s0 s : St) : String :=
   let ns := (s.store.filter fun p => (lookup s0.store p.1).isNone).map fun p =>
